@@ -645,6 +645,12 @@ theorem step_keepsB (sw : Switches) (hsw : sw.fwdCfgImplicit = false) (loadF : L
     repeat' split at h
     all_goals (first | cases h | skip)
     all_goals exact ⟨rfl, rfl, rfl⟩
+  | fail e => simp [step] at h
+  | loadCssSpec url withs =>
+    simp only [step] at h
+    repeat' split at h
+    all_goals (first | cases h | skip)
+    all_goals exact ⟨rfl, rfl, rfl⟩
 
 theorem evalStmts_keepsB (sw : Switches) (hsw : sw.fwdCfgImplicit = false) (loadF : LoadF)
     (rec : Url → Option Ident → Bool) (hL : KeepsB loadF rec) (b : Ident) (vis : Option Ident) :
